@@ -7,11 +7,10 @@ import PyPhysim.Proofs.C12Alloc
 
 Independent of the algorithm: everything here is about `IsWaterFilling`.
 
-* `IsWaterFilling.nonneg`, `.length`, `.mu_pos`
+* `IsWaterFilling.mu_pos`
 * `IsWaterFilling.unique`   — the pair `(p, μ)` is determined by `g, P, N, Es` when `0 < P`
 * `IsWaterFilling.of_perm`  — invariance under permutation of the channels
 * `IsWaterFilling.optimal`  — (ℝ) capacity optimality via concavity of `log` (KKT)
-* `argsortAsc_contract`     — the concrete sort of the model satisfies `SortContract`
 -/
 namespace PyPhysim.C12
 open PyPhysim.Proto
@@ -21,21 +20,6 @@ set_option linter.unusedSectionVars false
 section field
 variable {α : Type} [Field α] [LinearOrder α] [IsStrictOrderedRing α]
 variable {g p p' : List α} {P N Es mu mu' : α}
-
-theorem IsWaterFilling.nonneg (h : IsWaterFilling g P N Es p mu) : ∀ y ∈ p, 0 ≤ y := by
-  intro y hy
-  rw [h.form, List.mem_map] at hy
-  obtain ⟨x, _, rfl⟩ := hy
-  exact le_max_left _ _
-
-theorem IsWaterFilling.length (h : IsWaterFilling g P N Es p mu) : p.length = g.length := by
-  rw [h.form, List.length_map]
-
-theorem IsWaterFilling.getElem (h : IsWaterFilling g P N Es p mu) (j : Nat) (hj : j < g.length)
-    (hj' : j < p.length) : p[j] = max 0 (mu - N / (Es * g[j])) := by
-  have := h.form
-  subst this
-  simp
 
 /-- some channel gets power when `0 < P` -/
 theorem IsWaterFilling.exists_pos (h : IsWaterFilling g P N Es p mu) (hP : 0 < P) :
@@ -85,23 +69,6 @@ theorem IsWaterFilling.of_perm {g' : List α} (hperm : g'.Perm g) (h : IsWaterFi
     IsWaterFilling g' P N Es (g'.map (fun x => max 0 (mu - N / (Es * x)))) mu := by
   refine ⟨rfl, ?_⟩
   rw [(hperm.map _).sum_eq, ← h.form, h.sum]
-
-/-- the concrete sort used by the executable model satisfies the `argsort` contract -/
-theorem argsortAsc_contract (g : List α) : SortContract g (argsortAsc g) := by
-  refine ⟨List.mergeSort_perm _ _, ?_⟩
-  have := List.pairwise_mergeSort (le := fun x y : Chan α => !(decide (y.1 < x.1)))
-    (by
-      intro a b c hab hbc
-      simp only [Bool.not_eq_true', decide_eq_false_iff_not, not_lt] at hab hbc ⊢
-      exact le_trans hab hbc)
-    (by
-      intro a b
-      simp only [Bool.or_eq_true, Bool.not_eq_true', decide_eq_false_iff_not, not_lt]
-      exact le_total _ _)
-    g.zipIdx
-  refine this.imp ?_
-  intro a b hab
-  simpa using hab
 
 end field
 
